@@ -2,6 +2,13 @@
 """Adds the 'needs' text to seeded/*/meta.json (from the table below) and regenerates seeded/README.md."""
 import json, os, glob
 NEEDS = {
+ 'C14-diagnostics-end-node-unclamped': 'a failing series without -q and a failing hunk whose closest match is at the end of the file while the hunk has more lines than the file has left: index out of bounds in the diagnostics, exit 101 before anything is saved',
+ 'C15-move-in-swaps-existed': 'a rename whose target was on disk at the start of the push (renamed away and back, rename onto an existing empty file, rollback of a failed patch with a rename, refused rename): the target is rewritten in place instead of being replaced',
+ 'C16-old-name-existed-at-start': 'a file patch with differing old/new names whose old name was on disk at the start and was deleted or renamed away by an earlier patch of the same invocation',
+ 'C17-top-applied-goal-accepted': 'a goal naming exactly the top applied patch (two-step sequence: push 2, then push <second patch>): exit 0 without a message',
+ 'C18-backup-of-renamed-name-error-dropped': 'backups enabled, a rename patch inside the backup window and a fault hitting exactly the backup of the new name',
+ 'C19-only-first-name-checked': 'differing ---/+++ names where the old name is harmless and the new name escapes the tree, and the old file is absent (or the patch is a git rename)',
+ 'C20-try-max-fuzz-first': '--fuzz >= 1, a file patch with two hunks where the later hunk, stripped of its context, also occurs at or above the earlier hunk and has stale line numbers',
  'C01-frozen-line-ignores-direction': 'a -R series entry whose file patch has two hunks, the first deleting d more lines than it adds and the second starting within d unchanged lines (d >= 2c+1 at context width c): close changes at -U0, a net deletion of 7+ lines at -U3',
  'C04-rollback-ignores-applied-fuzz': '--fuzz >= 1, a modifying hunk that really needed fuzz, and that application being rolled back (--backup always, or onfail with a later failing patch)',
  'C07-union-compares-members-not-roots': 'at least five names first seen in the order y,z,a,b,c and the relations a-c, b-c, b-z, z-y in exactly that order (a deep inverted chain that the single compression pass flattens one level short)',
